@@ -268,7 +268,8 @@ def main_check(args):
 
     # ---- replay files + lines
     lines = []
-    rdir = os.path.join(VERIF, "replays", prop)
+    outroot = os.environ.get("PVM_OUT") or VERIF  # scratch runs against mutated copies write elsewhere
+    rdir = os.path.join(outroot, "replays", prop)
     written = {}
     for v in new_viol:
         if v["key"] in written:
@@ -319,8 +320,8 @@ def main_check(args):
         "wall_s": round(time.time() - t0, 2),
         "violations": n_new,
     }
-    os.makedirs(os.path.join(VERIF, "evidence"), exist_ok=True)
-    with open(os.path.join(VERIF, "evidence", prop + ".json"), "w") as f:
+    os.makedirs(os.path.join(outroot, "evidence"), exist_ok=True)
+    with open(os.path.join(outroot, "evidence", prop + ".json"), "w") as f:
         json.dump(ev, f, indent=1, default=str)
 
     for ln in lines:
